@@ -1,5 +1,5 @@
 use std::borrow::Cow;
-use std::collections::HashSet;
+use std::collections::HashMap;
 use unicode_categories::UnicodeCategories;
 
 /// Converts header strings to canonical, unique, but still human-readable,
@@ -20,12 +20,12 @@ use unicode_categories::UnicodeCategories;
 /// ```
 #[derive(Debug, Default)]
 #[doc(hidden)]
-pub struct Anchorizer(HashSet<String>);
+pub struct Anchorizer(HashMap<String, usize>);
 
 impl Anchorizer {
     /// Construct a new anchorizer.
     pub fn new() -> Self {
-        Anchorizer(HashSet::new())
+        Anchorizer(HashMap::new())
     }
 
     /// Returns a String that has been converted into an anchor using the
@@ -56,21 +56,25 @@ impl Anchorizer {
             .map(|c| if c == ' ' { '-' } else { c })
             .collect();
 
-        let mut uniq = 0;
-        id = loop {
+        // Every anchor handed out is a key; the value kept with an anchor is the
+        // first suffix that has not been tried for it yet (all smaller ones are
+        // taken), so that n equal headings do not cost n^2 probes.
+        let mut uniq = self.0.get(&id).copied().unwrap_or(0);
+        let anchor = loop {
             let anchor = if uniq == 0 {
                 Cow::from(&id)
             } else {
                 Cow::from(format!("{}-{}", id, uniq))
             };
 
-            if !self.0.contains(&*anchor) {
+            if !self.0.contains_key(&*anchor) {
                 break anchor.into_owned();
             }
 
             uniq += 1;
         };
-        self.0.insert(id.clone());
-        id
+        self.0.insert(anchor.clone(), 0);
+        self.0.insert(id, uniq + 1);
+        anchor
     }
 }
